@@ -242,13 +242,18 @@ func (w *entryWorld) run(E *ssa.Function, cfg entryCfg, recycle bool) *entryObs 
 		case strings.HasPrefix(name, "hook:"):
 			g := c.logGlobal(strings.TrimPrefix(name, "hook:"))
 			res := g.Type().(*types.Pointer).Elem().Underlying().(*types.Signature).Results().At(0).Type()
+			// a hook may read mutable state: every invocation after the first returns a value of its own
+			val := "value-of-" + name
+			if n := obs.calls[name]; n > 1 {
+				val = fmt.Sprintf("%s#%d", val, n)
+			}
 			switch {
 			case isStringType(res):
-				return kStr("value-of-" + name)
+				return kStr(val)
 			case isNamed(res, "time", "Time"):
-				return &Sym{Name: "value-of-" + name}
+				return &Sym{Name: val}
 			default:
-				return ip.mkSlice([]AV{&Sym{Name: "value-of-" + name}})
+				return ip.mkSlice([]AV{&Sym{Name: val}})
 			}
 		}
 		ood("external %s", name)
@@ -597,6 +602,38 @@ func (c *Ctx) checkEntrySemantics(r *Report, ro *Roles, rule string) map[string]
 					continue
 				}
 				for i, ev := range o.events {
+					// every record carries the results of its own hook invocations (same context throughout)
+					for hi, g := range w.hookGlobs {
+						set := sc.cfg.hooks
+						if sc.cfg.hookMask != 0 {
+							set = sc.cfg.hookMask&(1<<hi) != 0
+						}
+						if !set {
+							continue
+						}
+						res := g.Type().(*types.Pointer).Elem().Underlying().(*types.Signature).Results().At(0).Type()
+						field := "CtxFields"
+						switch {
+						case isNamed(res, "time", "Time"):
+							field = "Time"
+						case isStringType(res):
+							field = "CtxString"
+						}
+						wantV := "value-of-hook:" + g.Name()
+						if i > 0 {
+							wantV = fmt.Sprintf("%s#%d", wantV, i+1)
+						}
+						gs := avString(w.evField(ev, field))
+						if field == "CtxFields" {
+							gs = sliceSyms(w.evField(ev, field))
+						}
+						if strings.Trim(strings.TrimPrefix(gs, "sym:"), `"[] `) != wantV && !strings.HasSuffix(strings.Trim(gs, `"[] `), wantV) {
+							fail("%s: call %d of %d with the same context: Event.%s is %s, want the result of this call's own invocation of hook %s (%s)", sc.name, i+1, len(o.events), field, gs, g.Name(), wantV)
+						}
+					}
+					if n := o.calls["hook:"+w.hookGlobs[0].Name()]; sc.cfg.hooks && sc.cfg.hookMask == 0 && n != len(o.events) && i == 0 {
+						fail("%s: %d calls with the same context invoke hook %s %d times (want once per emitted event)", sc.name, len(o.events), w.hookGlobs[0].Name(), n)
+					}
 					want := fmt.Sprintf("%q", "frame:"+sc.cfg.sites[i])
 					if hasSkip && sc.cfg.skip > 1 {
 						continue
